@@ -74,7 +74,7 @@ func c04QueueChild(scPath string) int {
 		}
 		model := map[string]string{}  // value -> FRESH | CLAIMED
 		before := map[string]string{} // status at the moment of the last death
-		ids := map[string]string{}   // value -> id handed out by the last claim
+		ids := map[string]string{}    // value -> id handed out by the last claim
 		var hist []c04qOp
 		nextVal := 0
 		fail := func(sig, what string) {
